@@ -371,7 +371,12 @@ type Interp struct {
 	pkgVars   map[types.Object]*Val
 	// optional hooks for analyses that evaluate code over synthetic objects: a field an object does not have, and a
 	// call that has neither a model nor a body (an interface method). t is the static type of the result.
-	RefMaps       bool // make(map) yields a reference map (see MapV.Ref)
+	RefMaps bool // make(map) yields a reference map (see MapV.Ref)
+	// Pointers: an *Obj of kind "ptr" is a pointer cell; `*p` reads/writes its field "*" (otherwise a pointer and its
+	// pointee are one value). Defers: deferred calls of an evaluated function run when it returns (otherwise ignored).
+	Pointers      bool
+	Defers        bool
+	deferred      [][]func()
 	FieldFallback func(o *Obj, name string, t types.Type) (Val, bool)
 	CallFallback  func(fn *types.Func, recv Val, args []Val, t types.Type) (Val, bool)
 }
@@ -536,7 +541,19 @@ func (in *Interp) CallFunc(fi *FuncInfo, recv Val, args []Val) Val {
 		env.define(info.Defs[fi.Decl.Recv.List[0].Names[0]], recv)
 	}
 	in.bindParams(env, info, fi.Decl.Type, fi.Obj.Type().(*types.Signature), args)
+	if in.Defers {
+		in.deferred = append(in.deferred, nil)
+	}
 	c := in.execBlock(fi.Pkg, env, fi.Decl.Body.List)
+	if in.Defers {
+		ds := in.deferred[len(in.deferred)-1]
+		in.deferred = in.deferred[:len(in.deferred)-1]
+		rv := in.retVal
+		for i := len(ds) - 1; i >= 0; i-- {
+			ds[i]()
+		}
+		in.retVal = rv
+	}
 	if c == ctlReturn {
 		return in.retVal
 	}
@@ -822,7 +839,18 @@ func (in *Interp) exec(pkg *packages.Package, env *Env, s ast.Stmt) ctl {
 		case token.FALLTHROUGH:
 			return ctlFallthrough
 		}
-	case *ast.DeferStmt, *ast.GoStmt, *ast.EmptyStmt:
+	case *ast.DeferStmt:
+		if in.Defers && len(in.deferred) > 0 {
+			call := st.Call
+			// the function value and the arguments are evaluated now, the call happens at return
+			if fl, ok := ast.Unparen(call.Fun).(*ast.FuncLit); ok && len(call.Args) == 0 {
+				cl := Closure{Lit: fl, Env: env, Pkg: pkg}
+				in.deferred[len(in.deferred)-1] = append(in.deferred[len(in.deferred)-1], func() { in.callClosure(cl, nil) })
+			} else {
+				in.deferred[len(in.deferred)-1] = append(in.deferred[len(in.deferred)-1], func() { in.evalCall(pkg, env, call) })
+			}
+		}
+	case *ast.GoStmt, *ast.EmptyStmt:
 	case *ast.LabeledStmt:
 		return in.exec(pkg, env, st.Stmt)
 	default:
@@ -1073,6 +1101,12 @@ func (in *Interp) store(pkg *packages.Package, env *Env, l ast.Expr, v Val) {
 			o.set(selName(info, x), v)
 		}
 	case *ast.StarExpr:
+		if in.Pointers {
+			if o, ok := in.eval(pkg, env, x.X).(*Obj); ok && o.Kind == "ptr" {
+				o.set("*", v)
+				return
+			}
+		}
 		in.store(pkg, env, x.X, v)
 	case *ast.IndexExpr:
 		// writes into a known map are tracked (the map value is rebuilt and stored back into its holder); other element writes are not
@@ -1186,7 +1220,13 @@ func (in *Interp) eval(pkg *packages.Package, env *Env, e ast.Expr) Val {
 		// package-qualified
 		return in.pkgLevel(info.Uses[x.Sel])
 	case *ast.StarExpr:
-		return in.eval(pkg, env, x.X)
+		pv := in.eval(pkg, env, x.X)
+		if in.Pointers {
+			if o, ok := pv.(*Obj); ok && o.Kind == "ptr" {
+				return o.get("*")
+			}
+		}
+		return pv
 	case *ast.UnaryExpr:
 		switch x.Op {
 		case token.AND:
